@@ -98,6 +98,41 @@ class Fresh:
             return True
         return False
 
+    def foreign(self, e: ast.AST, at: int, depth: int = 8) -> bool:
+        """Positively known NOT to be created by this clone: the expression is rooted (through attribute / subscript /
+        call chains and plain local rebindings) in a parameter of the function, `self` included.  When neither fresh()
+        nor foreign() holds the provenance is unknown (tuple components, helper results, ...)."""
+        if depth <= 0:
+            return False
+        root = e
+        while isinstance(root, (ast.Attribute, ast.Subscript, ast.Call, ast.Starred)):
+            root = root.func if isinstance(root, ast.Call) else root.value
+        if isinstance(root, (ast.GeneratorExp, ast.ListComp)):
+            return self.foreign(root.generators[0].iter, at, depth - 1) and not isinstance(root.elt, ast.Call)
+        if not isinstance(root, ast.Name):
+            return False
+        params = {a.arg for a in self.fn.args.posonlyargs + self.fn.args.args + self.fn.args.kwonlyargs}
+        defs = reaching_defs(self.cfg, root.id, at)
+        if not defs:
+            return False
+        for nid, val in defs:
+            if nid == self.cfg.entry:
+                if root.id not in params:
+                    return False
+                continue
+            node = self.cfg.nodes[nid]
+            if val is not None:
+                if not self.foreign(val, nid, depth - 1):
+                    return False
+                continue
+            if node.kind == "for":
+                it = self._for_component(node.ast, root.id)
+                if it is None or not self.foreign(it, nid, depth - 1):
+                    return False
+                continue
+            return False
+        return True
+
     def _for_component(self, loop: ast.For, name: str) -> ast.AST | None:
         tgt, it = loop.target, loop.iter
         if isinstance(tgt, ast.Name):
@@ -122,6 +157,7 @@ def _root_name(e: ast.AST) -> str | None:
 def check(idx: Index, rep: Report, tier: str) -> str:
     r1 = rep.rule("C02.R1", "clone functions write (attribute stores, IR mutators) only to objects created by the clone; the only write to `dest` is the block insertion of the fresh blocks", floor=8)
     funcs = ["Operation.clone_without_regions", "Operation.clone", "Region.clone", "Region.clone_into"]
+    undecided: list[str] = []
     for q in funcs:
         f = idx.func(CORE, q)
         cfg = CFG(f.node)
@@ -139,6 +175,8 @@ def check(idx: Index, rep: Report, tier: str) -> str:
                     at = cfg.node_of(n)
                     if fr.fresh(t.value, at):
                         r1.ok(inst, f"{f.module.relpath}:{n.lineno} `{unparse(t)} = ...` on a fresh object")
+                    elif not fr.foreign(t.value, at):
+                        undecided.append(f"{f.fq}: `{unparse(n)[:70]}`: whether `{unparse(t.value)}` was created by this clone")
                     else:
                         src = _root_name(t.value)
                         r1.fail(inst, Finding("C02.R1", f.fq, f"write-nonfresh:{unparse(t)}", f"`{unparse(n)[:100]}` writes `{unparse(t)}` where `{unparse(t.value)}` is not derived from objects created by this clone (it comes from `{_origin(fr, cfg, t.value, at)}`): cloning modifies IR that was already there", f"{f.module.relpath}:{n.lineno}"))
@@ -160,16 +198,25 @@ def check(idx: Index, rep: Report, tier: str) -> str:
                     # the one permitted write to the destination: insertion of the fresh blocks
                     if c.args and fr.fresh(c.args[0], at):
                         r1.ok(inst, f"{f.module.relpath}:{c.lineno} dest.insert_block(<fresh blocks>)")
+                    elif c.args and not fr.foreign(c.args[0], at):
+                        undecided.append(f"{f.fq}: `{unparse(c)[:70]}`: whether the inserted blocks were all created by this clone")
                     else:
                         r1.fail(inst, Finding("C02.R1", f.fq, "dest-insert-nonfresh", f"`{unparse(c)}` inserts blocks that are not all created by this clone", f"{f.module.relpath}:{c.lineno}"))
+                elif not fr.foreign(recv, at):
+                    undecided.append(f"{f.fq}: `{unparse(c)[:70]}`: whether `{unparse(recv)}` was created by this clone")
                 else:
                     r1.fail(inst, Finding("C02.R1", f.fq, f"mutate-nonfresh:{unparse(c.func)}", f"`{unparse(c)[:100]}` mutates `{unparse(recv)}` which is not created by this clone", f"{f.module.relpath}:{c.lineno}"))
             if nm in WRITES_FIRST_ARG and c.args:
                 inst = f"{f.fq}:{unparse(c.func)}(arg0)"
                 if fr.fresh(c.args[0], at):
                     r1.ok(inst, f"{f.module.relpath}:{c.lineno} `{nm}` into fresh `{unparse(c.args[0])}`")
+                elif not fr.foreign(c.args[0], at):
+                    undecided.append(f"{f.fq}: `{unparse(c)[:70]}`: whether `{unparse(c.args[0])}` was created by this clone")
                 else:
                     r1.fail(inst, Finding("C02.R1", f.fq, f"clone-into-nonfresh:{unparse(c.args[0])}", f"`{unparse(c)[:100]}` clones into `{unparse(c.args[0])}` which is not created by this clone", f"{f.module.relpath}:{c.lineno}"))
+
+    if undecided and not any(r_.findings for r_ in [r1]):
+        raise AnalysisError("provenance not understood (neither created by the clone nor rooted in a parameter): " + "; ".join(undecided[:3]))
 
     # ---- R2: operands / successors of the copy come through the mappers
     r2 = rep.rule("C02.R2", "operands and successors given to the copy are obtained through value_mapper / block_mapper with identity fallback; remap loops pair source and copy walks", floor=4)
@@ -191,7 +238,15 @@ def check(idx: Index, rep: Report, tier: str) -> str:
             raise AnalysisError(f"{f.fq}: how the {what} of the copy are built was not understood: {d.unknown[:2]}")
         if d.bases - {"()"}:
             return f"the {what} of the copy include `{sorted(d.bases)}` unmapped"
-        shapes = {f"{mapper}.get(_x, _x)", f"{mapper}[_x] if _x in {mapper} else _x"}
+        shapes = {f"{mapper}.get(_x, _x)", f"{mapper}[_x] if _x in {mapper} else _x", f"_x if _x not in {mapper} else {mapper}[_x]"}
+        # explicit two-branch form: `M[x]` appended when x in M, `x` otherwise (same loop)
+        if len(d.adds) == 2 and all(len(a_.iters) == 1 for a_ in d.adds) and d.adds[0].iters == d.adds[1].iters and d.adds[0].iters[0][1] in sources:
+            var = d.adds[0].iters[0][0]
+            by_shape = {element_shape(a_): set(a_.facts) for a_ in d.adds}
+            inm = (f"{var} in {mapper}", True)
+            notin = (f"{var} in {mapper}", False)
+            if set(by_shape) == {f"{mapper}[_x]", "_x"} and inm in by_shape[f"{mapper}[_x]"] and notin in by_shape["_x"] and (by_shape[f"{mapper}[_x]"] - {inm}) <= allowed_facts and (by_shape["_x"] - {notin}) <= allowed_facts:
+                return None
         for ad in d.adds:
             if len(ad.iters) != 1 or ad.iters[0][1] not in sources:
                 return f"`{ad.elem}` is not taken per element of {sorted(sources)}"
@@ -242,6 +297,8 @@ def check(idx: Index, rep: Report, tier: str) -> str:
         val_ok = not dval.unknown and not dval.bases and len(dval.adds) == 1 and dval.adds[0].iters and dval.adds[0].iters[0][1] in (f"{old}.operands", f"{old}._operands") and element_shape(dval.adds[0]) in ("value_mapper.get(_x, _x)", "value_mapper[_x] if _x in value_mapper else _x") and not dval.adds[0].facts
         if not val_ok:
             bad.append(("remap-value", f"remapped operands are `{unparse(st.value)}`; must be value_mapper.get(operand, operand) over {old}.operands"))
+        if not fr.fresh(new_arg, cfg.node_of(w)) and not fr.foreign(new_arg, cfg.node_of(w)):
+            raise AnalysisError(f"{f.fq}: whether the copy side of the remap loop `{unparse(new_arg)}` walks only objects created by this clone was not understood")
         if not fr.fresh(new_arg, cfg.node_of(w)):
             bad.append(("remap-target", f"the copy side of the remap loop is `{unparse(new_arg)}`, which is not the walk of the freshly created copy: the pairing with self.walk() is wrong whenever it contains anything else"))
         # guarded by clone_operands
